@@ -208,6 +208,10 @@ func (u *transUnit) goType(e ast.Expr) *gty {
 		if v.Methods == nil || len(v.Methods.List) == 0 {
 			return tyAny
 		}
+	case *ast.FuncType:
+		if u.step != nil && u.step.ignoreFuncTypes {
+			return &gty{kind: "ignored", name: "func"}
+		}
 	case *ast.StarExpr:
 		return u.goType(v.X)
 	case *ast.ArrayType:
@@ -829,6 +833,9 @@ func (c *fnCtx) emitReturn(ind int, rs *ast.ReturnStmt, pos token.Pos) {
 		}
 		for i, r := range rs.Results {
 			s, t := c.expr(r, c.results[i])
+			if c.u.step != nil {
+				s, t, _ = c.tabCoerce(s, t, c.results[i])
+			}
 			if t.kind != c.results[i].kind {
 				c.fail(r.Pos(), "result %d has type %s, want %s", i, t, c.results[i])
 			}
@@ -1434,6 +1441,9 @@ func (u *transUnit) transFunc(recv, name, leanName string) bool {
 // MayPanic (…).  Found out by a first pass (fnCtx.panicky), after which the function is translated again.
 func (u *transUnit) transFuncMode(recv, name, leanName string, mayPanic bool) bool {
 	fd, file := u.pkg.Func(recv, name)
+	if u.step != nil && u.step.frag != nil {
+		fd, file = u.step.frag, u.step.fragFile // phase 5: a fragment of the function
+	}
 	if fd == nil || fd.Body == nil {
 		u.errs = append(u.errs, fmt.Sprintf("function %s.%s not found", recv, name))
 		return false
